@@ -227,3 +227,33 @@ Theorem warm_mask_sound : forall (V : Type) (zero : V) (K : nat) (e : stream boo
   (forall t, K <= true_before e t -> a t = b t).
 Proof. exact @warm_mask_sound_proof. Qed.
 Print Assumptions warm_mask_sound.
+
+(* ------------------------------------------------------------------ *)
+(* pipelined regions that contain a MEMORY (retiming through memory ports): the same two certificate
+   theorems over netlists with memories (NetMemDefs.v) and the machine-generic checker (MachineCert.v);
+   ma / mb are the power-on contents of the memories of the reference and of the hinted circuit *)
+From Gatery Require Import MemDefs MachineCert NetMemDefs.
+
+Theorem C06_mem_cert_strict_sound :
+  forall (ref hinted : mnetlist) (ma mb : list memory) (sc : schedule) (ws : list nat) (sigma : nat -> list bv),
+  (forall t, ins_wf ws (sigma t)) ->
+  forall layers, gcheck_cert MStrict (machine_of ref ma) (machine_of hinted mb) sc ws layers = true ->
+  forall t, mout_at sc sigma (machine_of hinted mb) t = mout_at sc sigma (machine_of ref ma) t.
+Proof.
+  intros a b ma mb sc ws sigma Hs layers H.
+  exact (gcert_sound_strict MStrict (machine_of a ma) (machine_of b mb) sc ws sigma Hs layers eq_refl H).
+Qed.
+Print Assumptions C06_mem_cert_strict_sound.
+
+Theorem C06_mem_cert_refine_sound :
+  forall (a b : mnetlist) (ma mb : list memory) (sc : schedule) (ws : list nat) (sigma : nat -> list bv),
+  (forall t, ins_wf ws (sigma t)) ->
+  forall layers, gcheck_cert MRefine (machine_of a ma) (machine_of b mb) sc ws layers = true ->
+  forall t, Forall2 bv_compat (mout_at sc sigma (machine_of a ma) t) (mout_at sc sigma (machine_of b mb) t) /\
+            (gclean_upto (machine_of a ma) sc sigma t = true ->
+             mout_at sc sigma (machine_of b mb) t = mout_at sc sigma (machine_of a ma) t).
+Proof.
+  intros a b ma mb sc ws sigma Hs layers H.
+  exact (gcert_sound MRefine (machine_of a ma) (machine_of b mb) sc ws sigma Hs layers eq_refl H).
+Qed.
+Print Assumptions C06_mem_cert_refine_sound.
